@@ -73,7 +73,9 @@ func (t *chunkTransport) RoundTrip(req *http.Request) (*http.Response, error) {
 		}
 	}
 	h := http.Header{}
-	h.Set("Docker-Content-Digest", t.digest)
+	if t.digest != "" {
+		h.Set("Docker-Content-Digest", t.digest)
+	}
 	h.Set("Content-Type", "application/octet-stream")
 	if t.crange != "" {
 		h.Set("Content-Range", t.crange)
@@ -87,12 +89,20 @@ func (*c01b) Impl(c Case) []string {
 	for i, l := range c.Lines {
 		out[i] = guard(func() string {
 			t := strings.Split(l, " ")
-			if len(t) < 4 || t[0] != "rd" {
+			if len(t) < 4 || (t[0] != "rd" && t[0] != "rq") {
 				return "bad-op"
 			}
 			size, _ := strconv.ParseInt(t[2], 10, 64)
 			dg, _ := untok(t[3])
 			tr := &chunkTransport{size: size, digest: dg, status: 200}
+			if t[0] == "rq" {
+				// rq <mode> <size> <digest in the response header, may be empty> <digest asked for> <chunk>*
+				if len(t) < 5 {
+					return "bad-op"
+				}
+				dg, _ = untok(t[4]) // what the caller asks for
+				t = append(t[:4:4], t[5:]...)
+			}
 			for _, ct := range t[4:] {
 				s, _ := untok(ct)
 				tr.chunks = append(tr.chunks, []byte(s))
@@ -192,6 +202,34 @@ func (*c01b) Gen(rng *RNG, tier string) []Case {
 		}
 		cases = append(cases, Case{Lines: []string{line}})
 	}
+	// What the caller asked for against what the registry claims to send (F31): the caller names a digest, the
+	// response carries content and a Docker-Content-Digest header of its own - consistent with each other or not,
+	// equal to the requested digest or not, or no header at all.
+	nq := n / 6
+	for i := 0; i < nq; i++ {
+		asked := rng.Bytes(rng.Intn(12))
+		other := append(rng.Bytes(1+rng.Intn(12)), 'x')
+		body := asked
+		if rng.Chance(1, 2) {
+			body = other
+		}
+		hdr := ""
+		switch rng.Intn(4) {
+		case 0:
+			hdr = sha256Digest(asked)
+		case 1, 2:
+			hdr = sha256Digest(body)
+		}
+		size := len(body)
+		if rng.Chance(1, 8) {
+			size = len(asked)
+		}
+		line := fmt.Sprintf("rq %d %d %s %s", []int{1, 2, 4}[rng.Intn(3)], size, tok(hdr), tok(sha256Digest(asked)))
+		for _, p := range partitions(rng, body, 4) {
+			line += " " + tok(string(p))
+		}
+		cases = append(cases, Case{Tag: "asked-vs-claimed", Lines: []string{line}})
+	}
 	return cases
 }
 
@@ -205,6 +243,26 @@ func (*c01b) Oracle(c Case, impl []string) []Failure {
 		got := impl[i]
 		size, _ := strconv.ParseInt(t[2], 10, 64)
 		dg, _ := untok(t[3])
+		if t[0] == "rq" {
+			// a complete read by digest yields bytes whose hash is the REQUESTED digest, whatever the response claims
+			asked, _ := untok(t[4])
+			var body []byte
+			for _, ct := range t[5:] {
+				s, _ := untok(ct)
+				body = append(body, s...)
+			}
+			ok := int64(len(body)) == size && sha256Digest(body) == asked
+			switch {
+			case got == "panic":
+				fs = append(fs, Failure{Class: "reader-panic", Oracle: "requested_digest_verified", Index: i, Expected: "an error or a clean end", Observed: got})
+			case strings.HasPrefix(got, "eof") && !ok:
+				fs = append(fs, Failure{Class: "reader-clean-eof-not-the-requested-digest", Oracle: "requested_digest_verified", Index: i,
+					Expected: "err (the content read does not hash to the digest that was asked for)", Observed: got})
+			case ok && (dg == "" || dg == asked || dg == sha256Digest(body)) && got != "eof "+tok(string(body)):
+				fs = append(fs, Failure{Class: "reader-rejects-matching", Oracle: "requested_digest_verified", Index: i, Expected: "eof with exactly the body", Observed: got})
+			}
+			continue
+		}
 		var body []byte
 		for _, ct := range t[4:] {
 			s, _ := untok(ct)
